@@ -204,7 +204,8 @@ func (w *World) Apply(ev Event) bool {
 			return false
 		}
 		m := w.MsgOfTx(ev.N, ev.Tx)
-		if len(m.Snd) == 0 || m.DstShard == vmcommon.MetachainShardId {
+		if len(m.Snd) != 32 || len(m.Rcv) != 32 || m.DstShard == vmcommon.MetachainShardId {
+			// the node's interceptors refuse transactions whose sender or receiver is not an address
 			return false
 		}
 		w.logf("tx %d snd=%x rcv=%x %s gas=%d fault=%v", ev.N, m.Snd, m.Rcv, m.Data, m.Gas, ev.Fault)
